@@ -132,7 +132,7 @@ namespace Givaro {
             return Integer::negin(r);
         }
 
-        Element& quo (Element& q, const Element& a, const Element& b) const {return Integer::floor(q, a, b);}
+        Element& quo (Element& q, const Element& a, const Element& b) const {Element r; return Integer::divmod(q, r, a, b);}
         Element& rem (Element& r, const Element& a, const Element& b) const {return Integer::mod(r,a,b);}
         Element& quoin (Element& a, const Element& b) const{return quo(a,a,b);}
         Element& remin (Element& a, const Element& b) const {return modin(a,b);}
